@@ -64,7 +64,7 @@ var props = map[string]*PropSpec{
 			{ID: "C18L", QuickRuns: 300, QuickSecs: 60, ThoroughRuns: 20000, ThoroughSecs: 300},
 			{ID: "C18V", QuickRuns: 400, QuickSecs: 60, ThoroughRuns: 20000, ThoroughSecs: 300},
 			{ID: "C18Q", Batch: 50, QuickRuns: 600, QuickSecs: 60, ThoroughRuns: 60000, ThoroughSecs: 300},
-			{ID: "C18S", QuickRuns: 1000, QuickSecs: 90, ThoroughRuns: 40000, ThoroughSecs: 900},
+			{ID: "C18S", QuickRuns: 2000, QuickSecs: 120, ThoroughRuns: 40000, ThoroughSecs: 900},
 		},
 		CoverageRule: "C18R (built with -race): 2-5 goroutines each driving 1-3 transactions (request, then response or proxy error) through shared flows, a grouped fixed-window quota and a concurrency quota of the real streams-mode HandlingDataManager, optionally a metrics read (flow invocations, quota counters read path) and a PUT /configuration reload at the same time; background GC/queue/unmanage goroutines run on the fake clock; C18A (-race): transaction lookups, policy reloads, a fail-safe revert and the two vacuum goroutines of the policies accessor; C18P (-race): 2-5 goroutines send SPOE request and response frames through the message handler of a policy-mode manager whose policies file (2-6 of: caching, response-based throttling, grouped strategy-based throttling, concurrency-based throttling, strategy-based queue, retry) was loaded by the gateway's own loader, optionally beside a policy reload; interleavings come from fake-time delays at every instrumented lock site and yield hook, a pure function of seed and call site; C18L: slots of the concurrency limiter taken and released while its vacuum goroutine passes, with simulated blocking (every lock taken through the simulator, tasks parked inside critical sections, a waiting writer shuts out readers): no deadlock, every operation returns; C18Q: requests of known and never-seen (remedy, group) pairs and reads of the quota gauge (Counters, the metrics callback of the strategy-based throttling remedy) interleaved at the lock sites of the rate-limit state: no operation panics, every one returns, the gauge after a round equals what was let through; C18V: key registrations run to completion while the vacuum goroutine (adopted as a task) is held at a lock site inside a pass on a tick at which entries are due; every registered key must have left the map a time-to-live and four ticks after the last registration; C18S: 2-3 overlapping transactions interleaved at lock sites by the token scheduler, outcome vector compared with all serial orders on fresh engines; non-trivial = every run (each has overlapping actors); distinct = (plan, delay parameters) signatures",
 		Assumptions: []string{
